@@ -329,7 +329,7 @@ fn printing(sh: &util::Shard, gr: &[f64], reprs: &[J]) -> Report {
 
 pub fn run(ctx: &Ctx) -> i32 {
     let mut total = Report::new();
-    let cfg = util::ForkCfg { threads: ctx.threads, mem_bytes: 4 << 30, case_timeout_s: 120, died_signature: "C06/abort".into() };
+    let cfg = util::ForkCfg { threads: ctx.threads, mem_bytes: 4 << 30, case_timeout_s: 120, died_signature: "C06/abort".into(), resource_is_violation: false };
     let bd = boundary();
     let mant_q: Vec<u64> = vec![0, 1, (1 << 52) - 1];
     let mant_t: Vec<u64> = vec![0, 1, 1 << 51, (1 << 52) - 1, 0x5555555555555, 0xAAAAAAAAAAAAA, 0x8000000000001, 0x7ffffffffffff, 0x0000000100000, 0x921fb54442d18];
